@@ -59,12 +59,12 @@ theorem seq_of_program (p : WalParams) (ops : List LogOp) :
     (ALog.run ops).entries.Pairwise (fun a b => a.seq ≤ b.seq) ∧ ∀ e ∈ (ALog.run ops).entries, e.seq < (ALog.run ops).next :=
   Kevo.Proofs.Wal.seq_of_program p ops
 
-/-- error branch: a batch containing an entry beyond the single-record limit is rejected and the counter does
-    not advance (the records before it are already in the file: see C03). -/
+/-- error branch: a batch containing an entry beyond the single-record limit is rejected as a whole: the log
+    (files and counter) is exactly what it was. -/
 theorem batch_too_large (p : WalParams) (crc : Bytes → Nat) (l : Log) (es : List (Nat × Bytes × Bytes))
     (hne : es ≠ []) (hseq : l.next < p.maxSeq)
     (h : ∃ t ∈ es, payloadSize p { op := t.1, seq := 0, key := t.2.1, val := t.2.2 } > p.maxRecord) :
-    (l.batch p crc es).1 = .error .tooLarge ∧ (l.batch p crc es).2.next = l.next :=
+    (l.batch p crc es).1 = .error .tooLarge ∧ (l.batch p crc es).2 = l :=
   Kevo.Proofs.Wal.batch_too_large p crc l es hne hseq h
 
 /-- The checksum hypothesis is necessary: the record stores only the low 32 bits of `crc data` while the reader
